@@ -130,16 +130,10 @@ class _BadiYearMonthDayCalculator(_YearMonthDayCalculator):
             if moving_backwards:
                 this_month += 1
 
-        next_year = this_year
-        next_month_num = this_month + months
-
-        if next_month_num > self.__MONTHS_IN_YEAR:
-            next_year = this_year + _towards_zero_division(next_month_num, self.__MONTHS_IN_YEAR)
-            next_month_num = next_month_num % self.__MONTHS_IN_YEAR
-        elif next_month_num < 1:
-            next_month_num = self.__MONTHS_IN_YEAR - next_month_num
-            next_year = this_year - _towards_zero_division(next_month_num, self.__MONTHS_IN_YEAR)
-            next_month_num = self.__MONTHS_IN_YEAR - next_month_num % self.__MONTHS_IN_YEAR
+        # Work with a zero-based month index so that multiples of 19 land on month 19, not month 0.
+        zero_based_month = this_month - 1 + months
+        next_year = this_year + zero_based_month // self.__MONTHS_IN_YEAR
+        next_month_num = zero_based_month % self.__MONTHS_IN_YEAR + 1
 
         if next_year < self._min_year or next_year > self._max_year:
             raise OverflowError("Date computation would overflow calendar bounds.")
